@@ -95,9 +95,19 @@ RecordVerdict(e) ==
   ELSE IF ~LlkOK(NT, e.llk) THEN "RecordLlkIsColdChain"
   ELSE "ok"
 
+(* every within-chain move is made under the sample's prior: its inbreeding coefficient and the number of possible     *)
+(* haplotypes of the locus, log(prod_j A_j) (recorded in micro-nats; interpreted numpy takes the log of an int8 array in   *)
+(* half precision, hence the tolerance of 0.02 nats - one more or fewer allele at a single SNV changes it by >= 0.28)      *)
+Abs(x) == IF x < 0 THEN -x ELSE x
+PriorOfMove(e) ==
+  IF "luh" \notin DOMAIN e THEN "ok"
+  ELSE IF e.inb # Hdr.inb THEN "MoveUsesSamplePrior"
+  ELSE IF Abs(e.luh - Hdr.luh) > 20000 THEN "MoveCountsEveryPossibleHaplotype"
+  ELSE "ok"
+
 Verdict(e) ==
-  CASE e.op = "Mutate" -> MutateVerdict(e)
-    [] e.op = "Interval" -> IntervalVerdict(e)
+  CASE e.op = "Mutate" -> (IF PriorOfMove(e) # "ok" THEN PriorOfMove(e) ELSE MutateVerdict(e))
+    [] e.op = "Interval" -> (IF PriorOfMove(e) # "ok" THEN PriorOfMove(e) ELSE IntervalVerdict(e))
     [] e.op = "Exchange" -> ExchangeVerdict(e)
     [] e.op = "Record" -> RecordVerdict(e)
     [] OTHER -> "UnknownEvent"
